@@ -186,6 +186,17 @@ class EngineD:
             shape = [g.choice([1, 1, 2, 3, 4]) for _ in range(N)]
             data = np.array([gen_double(g) if g.random() < 0.9 else 0.0 for _ in range(int(np.prod(shape)))]).reshape(shape, order="F")
             return {"kind": kind, "shape": shape, "data": enc(data), "order": g.choice(["F", "C"])}
+        if kind == "sptensor" and g.random() < 0.12:
+            # a very long mode: subscripts that no double can hold exactly
+            N = g.randint(1, 3)
+            shape = [g.choice([2**62, 2**55 + 3, 3, 5]) for _ in range(N)]
+            shape[g.randrange(N)] = g.choice([2**62, 2**55 + 3])
+            rows = set()
+            for _ in range(g.randint(1, 3)):
+                rows.add(tuple((s - 1 - g.randint(0, 5)) if (s > 10 and g.random() < 0.7) else g.randrange(min(s, 5)) for s in shape))
+            subs = [list(r) for r in sorted(rows)]
+            g.shuffle(subs)
+            return {"kind": kind, "shape": shape, "subs": subs, "vals": enc(np.array([gen_double(g) or 1.5 for _ in subs], dtype=float).reshape(-1, 1))}
         if kind == "sptensor":
             N = g.randint(1, 4)
             shape = [g.choice([1, 2, 3, 4, 5]) for _ in range(N)]
@@ -224,7 +235,14 @@ class EngineD:
         n = sw.randint(4, 16)
         written: List[str] = []
         for _ in range(n):
-            k = weighted(g, [("export", 5), ("import", 4), ("foreign", 1)])
+            k = weighted(g, [("export", 5), ("import", 4), ("foreign", 1), ("export_fmt", 1)])
+            if k == "export_fmt":
+                # an export with caller-chosen (possibly lossy) formats: judged for type and shape only, but every
+                # later default-format export must still round-trip bit for bit
+                path = g.choice(PATHS)
+                steps.append({"op": "export", "path": path, "obj": self._gen_obj(g), "fault": None, "fmt_data": g.choice(["%d", "%.3e", "%.17g", "%.1f"]), "fmt_weights": g.choice([None, "%.2e", "%d"])})
+                written.append(path)
+                continue
             if k == "import" and not written:
                 k = "export"
             if k == "export":
@@ -315,7 +333,8 @@ class EngineD:
             vals = np.asarray(dec(obj["vals"]), dtype=float).reshape(-1, 1)
             if len(obj["subs"]) == 0:
                 return ttb.sptensor(shape=shape), {"kind": k, "shape": shape, "subs": np.zeros((0, len(shape)), dtype=int), "vals": np.zeros((0, 1))}
-            subs = np.array(obj["subs"], dtype=int).reshape(len(obj["subs"]), len(shape))
+            subs = np.array(obj["subs"], dtype=np.int64).reshape(len(obj["subs"]), len(shape))
+            vals = np.where(vals == 0, 1.5, vals)
             return ttb.sptensor(subs.copy(), vals.copy(), shape), {"kind": k, "shape": shape, "subs": subs, "vals": vals}
         if k == "ktensor":
             w = np.asarray(dec(obj["weights"]), dtype=float)
@@ -352,8 +371,12 @@ class EngineD:
             sut_obj, truth = self._build(step["obj"])
             fault = step.get("fault") if w["init"].get("faulty") else None
             fs.arm(fault)
+            custom = step.get("fmt_data") is not None or step.get("fmt_weights") is not None
             try:
-                self.ttb.export_data(sut_obj, path)
+                if custom:
+                    self.ttb.export_data(sut_obj, path, fmt_data=step.get("fmt_data"), fmt_weights=step.get("fmt_weights"))
+                else:
+                    self.ttb.export_data(sut_obj, path)
                 ok = True
             except OSError:
                 ok = False
@@ -380,10 +403,12 @@ class EngineD:
                         res.bump("probe:overwrite")
                         if w["model"][step["path"]] == "indeterminate":
                             res.bump("probe:recovered_after_failed_export")
-                    w["model"][step["path"]] = truth
+                    w["model"][step["path"]] = "indeterminate" if custom else truth
+                    if custom:
+                        res.bump("probe:export_with_custom_format")
                     res.states.add(hash((step["obj"]["kind"], len(step["obj"]["shape"]), w["init"].get("buffering"), tuple(sorted(set(ev))))) & 0xFFFFFFFF)
                     # file-format facts checked by an independent reader
-                    v = self._check_file_text(path, truth, V)
+                    v = None if custom else self._check_file_text(path, truth, V)
             res.events.append([i, op, step["path"], bool(ok), fired])
         elif op == "foreign":
             _, truth = self._build(step["obj"])
